@@ -78,3 +78,32 @@ Proof.
   split; [vm_compute; reflexivity|]. split; [reflexivity|].
   split; [vm_compute; reflexivity|]. split; vm_compute; reflexivity.
 Qed.
+
+(* why c18_off_all_segmented_ok asks for "no undelivered probe outstanding" BEFORE the poll too:
+   an expired probe is popped and its bytes are cut again from below the old next-byte offset, so
+   the offset difference no longer measures what was segmented.  3000 bytes, the 528-byte segment
+   acknowledged with a window of 600, the 991-byte probe retransmitted once and expired: the poll
+   pops it, cuts 528 + 72 bytes (the window IS the limit), and the next-byte offset ends 391
+   bytes below where it started. *)
+Definition c18_ops_expired : list vop :=
+  [VoWrite (repeat 0 (Z.to_nat 3000)); VoPoll [];
+   VoDeliver (c18_msg 101 600); VoPoll [];
+   VoSetNow 3000000000; VoPoll [];
+   VoSetNow 9000000000; VoPoll []].
+
+Lemma c18_off_probe_guard_needed :
+  exists w cfg ops,
+    vconfig_ok cfg = true /\ vc_nagle cfg = false /\
+    existsb (fun st => c18_completed st && negb (c18_no_probe_last (fs_pre st))
+                       && c18_no_probe_last (fs_post st)
+                       && negb (is_remote_fin_or_later (f_state (fs_post st)))
+                       && (0 <? f_unsegmented (fs_post st))
+                       && (f_seg_offset (fs_post st) - f_seg_offset (fs_pre st) <? f_last_remote_window (fs_post st))
+                       && (f_seg_offset (fs_post st) <? f_seg_offset (fs_pre st)))
+            (wtrace w cfg ops) = true /\
+    forallb (c18_off_all_segmented_ok cfg) (wtrace w cfg ops) = true.
+Proof.
+  exists 100000, (c18_cfg false), c18_ops_expired.
+  split; [vm_compute; reflexivity|]. split; [reflexivity|].
+  split; vm_compute; reflexivity.
+Qed.
